@@ -7,5 +7,7 @@ from contracts.servlet import UNITS_FORWARD, UNITS_DEQUEUE
 UNITS += list(UNITS_FORWARD) + list(UNITS_DEQUEUE)
 from contracts.c11 import OnboardUnit      # noqa: E402  (process input queue: accepted requests reach the workers through the onboarding thread -- each once, unchanged, in order)
 UNITS += [OnboardUnit]
+from contracts.singlelane import SLInit, SLPut, SLGet, SLRelyGuarantee      # noqa: E402  (the batch buffer between collector and worker: a get that waits longer than told holds a partial batch -- and its requests -- back)
+UNITS += [SLInit, SLPut, SLGet, SLRelyGuarantee]
 NOT_DECIDED = ('pickling preserves values across process queues; SequentialServlet wiring is checked in C11',)
-SCENARIOS = [('', 'replay/scenarios/c02_server_battery.py'), ('', 'replay/scenarios/c02a_uid_recycle.py'), ('', 'replay/scenarios/c02b_record_before_enqueue.py')]
+SCENARIOS = [('', 'replay/scenarios/c02_server_battery.py'), ('', 'replay/scenarios/c02a_uid_recycle.py'), ('', 'replay/scenarios/c02b_record_before_enqueue.py'), ('', 'replay/scenarios/c06_idle_backlog.py'), ('', 'replay/scenarios/c09_batches.py')]
